@@ -286,6 +286,17 @@ def run(ctx):
     excdump = common.cc_driver("excdump", ["c03/excdump.c"], lib,
                                extra="-DBCDUMP_SRC_%s" % hashlib.sha256(bcsrc).hexdigest()[:12])
     never = os.path.join(lib, "never")
+    # the callee library of the FFI-record programs (harness/c03/faultgen.py ffi_lib_source)
+    ffic = os.path.join(tools.tmp, "c03ffi.c")
+    ffilib = os.path.join(tools.tmp, "libc03ffi.so")
+    open(ffic, "w").write(faultgen.ffi_lib_source())
+    rc, so, se = common.sh("gcc -O0 -w -shared -fPIC -o %s %s" % (ffilib, ffic), timeout=120)
+    have_ffi = rc == 0 and os.path.exists(ffilib)
+    if not have_ffi:
+        ctx.notes["ffi_library"] = "could not be built: " + (se or so)[-400:]
+
+    def real(src):
+        return src.replace(faultgen.FFILIB, ffilib)
     names = vmcheck.opcode_names()
     tmp = tools.tmp
     stats = collections.Counter()
@@ -310,14 +321,14 @@ def run(ctx):
         fam = [("replay", c.get("program") or c["case"]["program"], c["expected"], "replay")]
         progs = []
     else:
-        progs = faultgen.family(ctx.seed, ctx.tier)
+        progs = faultgen.family(ctx.seed, ctx.tier, ffilib=have_ffi)
         for p in progs:
             fam.append((p.pid, p.src(), faultgen.expected(p), p.coords))
     ids = {}
     items = []
     for i, (pid, src, exp, coords) in enumerate(fam):
         ids["P%d" % i] = i
-        items.append(("P%d" % i, src))
+        items.append(("P%d" % i, real(src)))
 
     # ---- (3) outcomes under the ASan build
     t1 = time.time()
@@ -354,12 +365,13 @@ def run(ctx):
     # ---- command-line tool: unhandled -> non-zero exit status and the report on stdout
     t1 = time.time()
     cli = [i for i, f in enumerate(fam) if f[2]["kind"] == "unhandled"][: (12 if ctx.tier == "quick" else 60)]
+    cli += [i for i, f in enumerate(fam) if f[2]["kind"] == "unhandled" and f[3].startswith("toplevel")][: (12 if ctx.tier == "quick" else 60)]
     cli += [i for i, f in enumerate(fam) if f[2]["kind"] == "result"][: (4 if ctx.tier == "quick" else 20)]
 
     def one_cli(i):
         pid, src, exp, coords = fam[i]
         path = os.path.join(tmp, "cli%d.nev" % i)
-        open(path, "w").write(src)
+        open(path, "w").write(real(src))
         try:
             p = subprocess.run([never, "-f", path], stdout=subprocess.PIPE, stderr=subprocess.STDOUT, env=RUN_ENV, timeout=20)
             return i, p.returncode, p.stdout.decode(errors="replace")
@@ -390,7 +402,7 @@ def run(ctx):
     work = []
     for i, (pid, src, exp, coords) in enumerate(fam):
         path = os.path.join(tmp, "fam%d.nev" % i)
-        open(path, "w").write(src)
+        open(path, "w").write(real(src))
         work.append(("fam", i, "P%d" % i, path, tmp, True))
     if not getattr(ctx, "replay", None):
         for pid, path, cwd in vmcheck.corpus_programs():
@@ -441,9 +453,22 @@ def run(ctx):
         ver, lock = v["verify"], v["lockstep"]
         if not ver.startswith("VERIFY ok"):
             stats["verify_fail"] += 1
-            ctx.correspondence_broken("verify(%s)" % label, {"program": label, "verify": ver, "lockstep": lock,
-                                                            "note": "the proved validator rejects this module: the bytecode-level "
-                                                                    "theorems of Properties_C03.v do not apply to it"})
+            wit = v.get("witness", "")
+            if wit.startswith("WITNESS crash=NoHandler"):
+                # a concrete static path of this program's compiled code that ends with a fault at an address
+                # covered by no block of the exception table (the VM gets NULL from exception_tab_search)
+                stats["static_path_nohandler"] += 1
+                if stats["static_path_nohandler"] <= 3:
+                    ctx.violation("static-path-NoHandler:%s" % coords_key(fam[key][3] if kind == "fam" else label),
+                                  "compiled code of %s: a fault can be raised at an address in no exception-table block: %s" % (label, wit[:300]),
+                                  {"kind": "program", "program": fam[key][1] if kind == "fam" else label, "verify": ver,
+                                   "witness_path": wit, "lockstep": lock,
+                                   "how": "bcdump <program> | build/ocaml/verifier/run : the listed (ip:sp) path is a run of the shape "
+                                          "machine over the real module ending in Crash NoHandler"})
+            else:
+                ctx.correspondence_broken("verify(%s)" % label, {"program": label, "verify": ver, "lockstep": lock, "witness": wit,
+                                                                "note": "the proved validator rejects this module: the bytecode-level "
+                                                                        "theorems of Properties_C03.v do not apply to it"})
         else:
             stats["verify_ok"] += 1
         if lock.startswith("LOCKSTEP crash"):
@@ -537,7 +562,8 @@ def run(ctx):
     ctx.coverage["distinct_nontrivial"] = stats["family_with_fault"] + len(shapes) + ctx.coverage.get("parts", {}).get("exctab", {}).get("found", 0)
     ctx.coverage["rule"] = (
         "exctab: sorted random tables searched at every block boundary (distinct found-cases counted); "
-        "fault programs: templates kind(13) x argument position k(0..2) x nesting depth d(0..3 frames under construction) x clause "
+        "fault programs: templates kind(13 + FFI record arguments with nil string / nil nested-record fields in every position, "
+        "callee with a side effect) + faults in module-level initialisers (direct / rethrown out of called functions); kind(13) x argument position k(0..2) x nesting depth d(0..3 frames under construction) x clause "
         "j(0..3) levels up x clause order(first,last,only,dup,catch-all,absent) + faulting clauses + loops + closures + recursion + "
         "controls, seeded; expected markers/result/unhandled report from the property's closed form; non-trivial = a fault is "
         "actually raised; modules: every corpus + generated module through the extracted checker and the layout check; lock-step "
